@@ -12,6 +12,18 @@ CLAIMED = {
          "Same finite space as C01 plus FlacStreamWriter frame sequences; the oracle shares no code with the crate (own bit reader, CRCs, MD5, exact untruncated prediction), so self-consistent but non-conforming output is visible.",
          "Trusts refdec, which is bound to reality by the libFLAC-made fixtures (MD5 match) and by inverting the independently written builder fgen. The RFC's 'depth >= 4' recommendation is not enforced (the crate documents 1..32).",
          "§4 C02"),
+ "C03": ("bounded-exhaustive enumeration of a 23-axis frame-grammar choice space (all vectors within d deviations + full single-axis sweeps) through an independently written stream builder; every built stream decoded by 7 real reader front-ends + verify_reader in both build profiles",
+         "Streams are valid by construction and their expected decode is the target PCM; generator and independent decoder must invert each other on every stream (else machinery error). Covers constructs the crate's encoder never emits (variable blocking, STREAMINFO-referenced depths, escapes, 5-bit Rice at any depth, LPC order 32 / 15-bit coefficients, 33-bit side, wasted bits on side channels).",
+         "Trusts fgen+refdec only jointly (two independent halves that must agree). Targets limited to 5 signal kinds.",
+         "§4 C03"),
+ "C04": ("bounded-exhaustive input enumeration (grammar-generated malformed frames with valid checksums; every single-byte substitution with and without checksum repair and every truncation of a corpus; every short byte string after fixed prefixes) pushed through every decoding entry point in both build profiles under a counting allocator and watchdog",
+         "≈1.5M inputs × 13 entry points per profile in the quick tier; a panic, allocation above 48 MiB + 16×len, >10^6 reads past end of data, a worker abort or a watchdog hit is a violation.",
+         "'All byte strings' is reduced to three enumerated spaces; no coverage-guided fuzzing (sampling) is used.",
+         "§4 C04"),
+ "C05": ("exhaustive damage enumeration per corpus file (every single-bit flip in the audio frames, every truncation, every stored-MD5 bit) and every must-reject class generated with valid checksums, on 4 real readers + verify_reader; oracle tied to the independent decoder",
+         "Ok ⇒ the independent decoder accepts the same bytes with the same PCM; Err ⇒ what was delivered is a whole-frame prefix of the original and nothing of a must-reject frame; MD5Match only for PCM that hashes to the stored digest.",
+         "One damage per file; codes a decoder may accept (non-zero padding, residual -2^31, out-of-range samples, 15-sample non-final block) give no verdict.",
+         "§4 C05"),
  "C06": ("explicit-state BFS to a fixpoint over read/fill/consume/seek histories on clones of the real seekable readers, exact-state de-duplication through the verif-hooks accessor, reference = cursor over the PCM",
          "All reachable states of each seekable reader under a fixed op alphabet are visited for every file of a seek corpus (channels × depth × seek-table shape × declared/unknown length); every transition is compared with a reference cursor. Fixpoint reached ⇒ every history over the alphabet is covered, of any length.",
          "Trusts the hook to expose all mutable reader state (source position, current sample, decoded frame, buffered remainder, consumed count). Arguments outside the alphabet are not explored.",
@@ -40,6 +52,10 @@ CLAIMED = {
          "The complete boundary grid of constructor arguments (≈80k calls per writer), every Options setter boundary value, every documented value alone and every cross-axis pair, and every ≤2-cut history that under-, exactly- or over-fills a declared length are executed; nothing is sampled.",
          "Trusts refdec (self-bound to libFLAC fixtures). Triples of documented values only via C01's lattice. Huge declared totals use no_seektable() outside a representative sub-grid (cost).",
          "§4 C15"),
+ "C17": ("bounded-exhaustive enumeration of frames (crate output over the C01 space, valid and malformed grammar-built streams), each isolated into a one-frame stream; structural parser vs streaming decoder vs independent decoder",
+         "≈1.3M frames in the quick tier: accept/reject agreement, exact expansion length, sample agreement after inverse decorrelation, byte-identical re-serialisation when the independent decoder reports minimal coded number and zero padding.",
+         "Frames judged under the original STREAMINFO with total/MD5 cleared.",
+         "§4 C17"),
  "C19": ("bounded-exhaustive enumeration of the C01 space plus adversarial signals × the option lattice through the real encoder; per-frame arithmetic bound evaluated on sizes measured by the independent decoder",
          "≈1.9M encodes, every frame measured; bound = verbatim bits (+1 bit/sample for one channel under stereo decorrelation) + 32 + 6·channels bytes; constant blocks ≤ 32 + 12·channels bytes.",
          "Same input bounds as C01; the allowance constants are derived from the format's maximum header/footer sizes.",
